@@ -61,6 +61,13 @@ func (f *fileDecorator) fragment(node ast.Node) {
 		processFile := func(astf *ast.File) {
 			avoid := map[int]bool{}
 
+			// When decorating a package the fragment list holds the fragments of all its files, but
+			// line numbers are per file: only fragments of this file may mark its lines.
+			thisFile := f.Fset.File(astf.Pos())
+			inThisFile := func(pos token.Pos) bool {
+				return thisFile != nil && f.Fset.File(pos) == thisFile
+			}
+
 			// we will avoid adding a newline decoration that is inside a comment
 			for _, cg := range astf.Comments {
 				for _, c := range cg.List {
@@ -88,7 +95,7 @@ func (f *fileDecorator) fragment(node ast.Node) {
 			for _, frag := range f.fragments {
 				switch frag := frag.(type) {
 				case *stringFragment:
-					if !strings.HasPrefix(frag.String, "`") {
+					if !strings.HasPrefix(frag.String, "`") || !inThisFile(frag.Pos) {
 						continue
 					}
 
@@ -104,6 +111,10 @@ func (f *fileDecorator) fragment(node ast.Node) {
 					}
 
 				case *badFragment:
+
+					if !inThisFile(frag.Pos) {
+						continue
+					}
 
 					// Newlines inside bad nodes are not printed by the formatter, so there is no
 					// need to reconstruct them in the restorer.
